@@ -394,6 +394,8 @@ func runC10(c *Ctx) {
 		{"core/types", "", "CopyHeader", "Header", map[string]string{},
 			map[string]string{"Coinbase": "", "extraCache": ""}},
 	}
+	// fields for which the constructor's fresh value is the right content of a copy
+	freshOK := map[string]string{}
 	for _, sp := range specs {
 		fn := w.Fn(sp.pkg, sp.recv, sp.fn)
 		c.sawFunc(fname(fn))
@@ -402,12 +404,24 @@ func runC10(c *Ctx) {
 		handled := map[string]bool{}
 		shallow := map[string]token.Pos{}
 		copyCoverage(w, fn, T, 2, handled, shallow, map[*ssa.Function]bool{})
+		direct := map[string]bool{}
+		copyCoverage(w, fn, T, 0, direct, map[string]token.Pos{}, map[*ssa.Function]bool{})
 		for i := 0; i < st.NumFields(); i++ {
 			f := st.Field(i)
 			c.sites++
 			key := fname(fn) + "#" + f.Name()
 			if r, ok := sp.exclude[f.Name()]; ok {
 				c.Pass(key, fn.Pos(), "tabled exclusion: "+r)
+				continue
+			}
+			// a field that only a constructor initialises is carried over only if the constructor fills it from an
+			// argument that comes from the source; a fresh empty container is not a copy of the source's content
+			if handled[f.Name()] && !direct[f.Name()] && ctorGivesFreshContainer(fn, f) {
+				if r, ok := freshOK[key]; ok {
+					c.Pass(key, fn.Pos(), "fresh in the copy by design, tabled: "+r)
+				} else {
+					c.Fail(key, fn.Pos(), "field "+sp.typ+"."+f.Name()+" is only initialised by the constructor "+fn.Name()+" calls, not filled from the source: the copy starts with an empty "+f.Name()+" where the original has content (for stateObject.originStorage: a pending write equal to the zero value is then skipped and never reaches the trie)")
+				}
 				continue
 			}
 			if !handled[f.Name()] {
@@ -944,4 +958,37 @@ func wrongSourceFields(w *World, fn *ssa.Function, T *types.Named) []wrongSource
 		}
 	}
 	return out
+}
+
+// ctorGivesFreshContainer: f is a map or slice field and a function fn calls
+// (a constructor) stores a freshly made empty container into it.
+func ctorGivesFreshContainer(fn *ssa.Function, f *types.Var) bool {
+	switch f.Type().Underlying().(type) {
+	case *types.Map, *types.Slice:
+	default:
+		return false
+	}
+	for _, ci := range callInstrs(fn) {
+		g := staticCallee(ci)
+		if g == nil || g.Blocks == nil {
+			continue
+		}
+		for _, b := range g.Blocks {
+			for _, in := range b.Instrs {
+				st, ok := in.(*ssa.Store)
+				if !ok {
+					continue
+				}
+				fa, ok := st.Addr.(*ssa.FieldAddr)
+				if !ok || fieldOfAddr(fa) != f {
+					continue
+				}
+				switch stripConv(st.Val).(type) {
+				case *ssa.MakeMap, *ssa.MakeSlice:
+					return true
+				}
+			}
+		}
+	}
+	return false
 }
